@@ -1,6 +1,7 @@
 package props
 
 import (
+	"context"
 	"fmt"
 	"html/template"
 	"reflect"
@@ -142,7 +143,7 @@ func init() {
 			return s
 		},
 		Run:  c07Run,
-		Rule: "matrix: 93 subjects (61 injected value kinds incl. nil pointer/map/slice/func and empty HTML, unknown identifier, literals, field/index/helper/user-function results) x 14 syntactic contexts (if, silent if, else-if, !, !!, && and || on either side, if(!x), if(x && 1), inside for / fn / helper block): every context must report the truth value given by the statement's table (which makes them agree with each other). chains: if + k else-if (+ else), k<=3, every assignment of condition values from {true,false,0,\"\",\"a\",nil} through a counting helper plus the bare conditions nope / !nope (unknown identifier), blocks as text, as return, or with every second block empty, at top level, inside for / fn / helper block and evaluated twice (loop of two iterations, function called twice): exactly the first truthy block (or else / nothing) is rendered and conditions 0..j are evaluated once each, none after j. stateful conditions with identical text repeated along a chain (each occurrence is evaluated in turn); non-nil pointers to false / empty string / empty HTML / a nil pointer are truthy; rebinding: a name tested while unknown, then bound (loop variable / key, parameter, let and assignment, helper Set, BlockWith child, partial data), then unknown again - every test follows the current binding. ill-formed chains (a second else, or an else if, after the else block): an error or the textually first truthy block, never a later part. Non-trivial: all cases.",
+		Rule: "matrix: 93 subjects (61 injected value kinds incl. nil pointer/map/slice/func and empty HTML, unknown identifier, literals, field/index/helper/user-function results) x 14 syntactic contexts (if, silent if, else-if, !, !!, && and || on either side, if(!x), if(x && 1), inside for / fn / helper block): every context must report the truth value given by the statement's table (which makes them agree with each other). chains: if + k else-if (+ else), k<=3, every assignment of condition values from {true,false,0,\"\",\"a\",nil} through a counting helper plus the bare conditions nope / !nope (unknown identifier), blocks as text, as return, or with every second block empty, at top level, inside for / fn / helper block and evaluated twice (loop of two iterations, function called twice): exactly the first truthy block (or else / nothing) is rendered and conditions 0..j are evaluated once each, none after j. stateful conditions with identical text repeated along a chain (each occurrence is evaluated in turn); non-nil pointers to false / empty string / empty HTML / a nil pointer are truthy; rebinding: a name tested while unknown, then bound (loop variable / key, parameter, let and assignment, helper Set, BlockWith child, partial data), then unknown again - every test follows the current binding. names that are also names of built-in helpers bound by the user (to nil, false, \"\", 0, a string; by let and from Go) and names answered by a wrapped Go context, tested at top level, in function / loop / BlockWith-child / partial scopes and three scopes deep: the truth value of the binding everywhere. ill-formed chains (a second else, or an else if, after the else block): an error or the textually first truthy block, never a later part. Non-trivial: all cases.",
 		Bound: func(th bool) string {
 			return "matrix complete; chains with up to 3 else-if branches, 8 condition values, 6 placements, 2 block styles"
 		},
@@ -259,6 +260,70 @@ func c07Run(t *engine.T, shard string) {
 								return "", engine.Failf("mismatch", "inner binding %#v (truthy=%v): expected %q, got %q / %v", v, c07Truthy(v), want, out, err)
 							}
 							return fmt.Sprintf("truthy=%v", c07Truthy(v)), nil
+						})
+					}
+				}
+			}
+		}
+		// names that are also names of built-in helpers, bound by the user (to nil and other values, by let and from Go),
+		// and names answered by a wrapped Go context: the same truth value at top level and in every nested scope
+		type nv struct {
+			name  string
+			v     interface{}
+			viaGo bool // carried by the Go context the root wraps
+		}
+		nvs := []nv{{"len", nil, false}, {"raw", nil, false}, {"truncate", false, false}, {"len", "", false}, {"raw", 0, false}, {"len", "x", false}, {"gv", "bob", true}, {"gv", 0, true}, {"gv", "", true}, {"gv", false, true}, {"gv", []int{}, true}, {"len", "mine", true}}
+		for ni, x := range nvs {
+			for _, how := range []string{"set", "let"} {
+				if how == "let" && (x.viaGo || x.v != nil && x.v != false && x.v != "" && x.v != 0 && x.v != "x") {
+					continue
+				}
+				for _, cx := range c07Contexts {
+					for _, nest := range []struct{ name, pre, post, open, close string }{
+						{"top", "", "", "", ""}, {"fn body", `<% let f9 = fn() { %>`, `<% } %><%= f9() %>`, "", ""}, {"for body", `<%= for (i9) in one { %>`, `<% } %>`, "", ""},
+						{"BlockWith child", `<%= withn() { %>`, `<% } %>`, "", ""}, {"fn in for in BlockWith child", `<%= withn() { %><%= for (i9) in one { %><% let f9 = fn() { %>`, `<% } %><%= f9() %><% } %><% } %>`, "", ""},
+						{"partial", "", "", "", ""},
+					} {
+						x, how, cx, nest := x, how, cx, nest
+						inner := cx.pre + x.name + cx.post
+						pre := ""
+						if how == "let" {
+							pre = `<% let ` + x.name + ` = ` + map[interface{}]string{nil: "nil", false: "false", "": `""`, 0: "0", "x": `"x"`}[x.v] + ` %>`
+						}
+						src := pre + nest.pre + inner + nest.post
+						if nest.name == "partial" {
+							src = pre + `<%= partial("pn9") %>`
+						}
+						truthy := c07Truthy(x.v)
+						if x.viaGo && x.name == "len" {
+							truthy = true // the built-in is injected under a name the context's own data does not bind
+						}
+						want := cx.no
+						if truthy {
+							want = cx.yes
+						}
+						t.Case(fmt.Sprintf("helper-or-wrapped name #%d %s=%#v via %s in %s %s %s", ni, x.name, x.v, how, nest.name, cx.name, q(src)), true, func() (string, *engine.Fail) {
+							var log []int
+							base := c07Context(&log)
+							ctx := base
+							if x.viaGo {
+								ctx = plush.NewContextWithContext(context.WithValue(context.Background(), x.name, x.v))
+								for _, k := range []string{"one", "blk", "c"} {
+									ctx.Set(k, base.Value(k))
+								}
+							} else if how == "set" {
+								ctx.Set(x.name, x.v)
+							}
+							ctx.Set("withn", func(help plush.HelperContext) (template.HTML, error) {
+								s, err := help.BlockWith(help.New())
+								return template.HTML(s), err
+							})
+							ctx.Set("partialFeeder", func(name string) (string, error) { return inner, nil })
+							out, err := Render(src, ctx)
+							if err != nil || out != want {
+								return "", engine.Failf("mismatch", "%s is %#v (truthy=%v): expected %q, got %q / %v", x.name, x.v, truthy, want, out, err)
+							}
+							return fmt.Sprintf("truthy=%v", truthy), nil
 						})
 					}
 				}
